@@ -437,7 +437,8 @@ def _run_stoch(case, obs):
             obs.regime("regime:force_feasible-capped")
             interesting = True
         xa, xd = F(a) * pph, F(a + d_eff) * pph
-        if min(abs(xa - round(xa)), abs(xd - round(xd))) < F(1, 10 ** 9) and not case["dyadic"]:
+        dyadic_row = case["dyadic"] and float(a * 64).is_integer() and float(dur * 64).is_integer()  # (a sample drawn before the start is not)
+        if min(abs(xa - round(xa)), abs(xd - round(xd))) < F(1, 10 ** 9) and not dyadic_row:
             obs.boundary += 1
             continue
         ea, ed = math.floor(xa), math.floor(xd)
